@@ -6,9 +6,5 @@ import (
 	"verif/harness/internal/vlib"
 )
 
-func runC39(c *vlib.Ctx) error                           { return fmt.Errorf("not built") }
 func runC40(c *vlib.Ctx) error                           { return fmt.Errorf("not built") }
-func runC44(c *vlib.Ctx) error                           { return fmt.Errorf("not built") }
-func replayC39(c *vlib.Ctx, b map[string]any) error      { return fmt.Errorf("not built") }
 func replayC40(c *vlib.Ctx, b map[string]any) error      { return fmt.Errorf("not built") }
-func replayC44(c *vlib.Ctx, b map[string]any) error      { return fmt.Errorf("not built") }
